@@ -816,7 +816,8 @@ def run(ctx):
         o = new[0]
         extra = "".join("# %s\n" % x["what"] for x in new[:12])
         ctx.violation("oracle", replay_text(o["case"], extra + "EXPECT %s\n" % json.dumps(
-            {"node": o.get("node"), "mode": o.get("mode"), "want": o.get("want"), "nq": bool(o.get("nq"))})))
+            {"node": o.get("node"), "mode": o.get("mode"), "want": o.get("want"), "nq": bool(o.get("nq")),
+             "results": len(o["case"].get("nodes", [])) * len(MODES)})))
     ctx.notes["oracle_failures"] = len(new)
     return ctx.finish(LEVEL, explanation="theorems over the Gallina model of the pattern tables and findTemplate + generated facts from XPath.cpp/Stylesheet.cpp + correspondence of the extracted model with whole transformations + independent section 5.5 oracle")
 
@@ -842,6 +843,9 @@ def replay(ctx, path):
     for i in range(0, len(obs), len(MODES)):
         print("  node #%d: %s" % (i // len(MODES), obs[i:i + len(MODES)]))
     if e.get("node") is None:
+        if e.get("results") and len(obs) != e["results"]:
+            print("%d results in the output, %d expected -> FAILS" % (len(obs), e["results"]))
+            return 1
         return 0
     k = e["node"] * len(MODES) + MODES.index(e["mode"])
     if e.get("nq"):
